@@ -48,6 +48,10 @@ _SHAPE_TWINS = [(f'{CAT}.orientation', 'stmt', _ORIENT, 'orientation keeps the q
     [(f'{c_}._covariance', k_, t_, w_) for c_, k_, t_, w_ in _COVAR]
 
 EXTRA_SPECS = {
+    'C01': [('photutils.aperture.mask.ApertureMask.to_image', 'nret', '2', 'to_image returns a freshly filled image (or None without overlap): no view of the mask data'),
+            ('photutils.aperture.mask.ApertureMask.to_image', 'ret', 'None ||| image', 'to_image returns a freshly filled image')],
+    'C13': [('photutils.psf.model_helpers.grid_from_epsfs', 'stmt', 'grid_xypos = list(zip(x_0s, y_0s, strict=True))',
+             'grid positions stay in the order of the stacked ePSF arrays')],
     'C04': [
         (f'{SEG}.detect.detect_threshold', 'guard', 'data = np.ma.MaskedArray(data, mask) ||| background is None; error is None; mask is None',
          'the mask is applied whenever the background or the error has to be estimated from the data'),
@@ -60,7 +64,14 @@ EXTRA_SPECS = {
          'detect_sources(data, threshold, self.npixels[0], mask=mask, connectivity=self.connectivity)',
          'detection uses the first (detection) element of npixels'),
     ],
-    'C05': _SEG_LABELS,
+    'C05': [(f'{SEG}.core.SegmentationImage.missing_labels', 'ret',
+             'np.array(sorted(set(range(self.max_label + 1)).difference(np.insert(self.labels, 0, 0))))',
+             'missing labels are counted from 1 (every unused number below max_label)'),
+            (f'{SEG}.core.SegmentationImage.areas', 'ret',
+             'np.array([np.count_nonzero(self._data[slices] == label) for label, slices in zip(self.labels, self.slices, strict=True)]) ||| np.array(areas)',
+             'one area per label, counted in the label\'s own bounding box (arrays without background included)'),
+            (f'{SEG}.core.SegmentationImage.areas', 'expr', 'np.count_nonzero(self._data[slices] == label)',
+             'one area per label, counted in the label\'s own bounding box')] + _SEG_LABELS,
     'C07': _SHAPE_TWINS + _GET_LABELS + _LOCALBKG + [
         (f'{CAT}.get_labels', 'guard', 'indices = sorter[np.searchsorted(self.labels, labels, sorter=sorter)] ||| ',
          'the sorted lookup is used for every catalog order (no shortcut for catalogs that merely look ascending)')],
@@ -70,8 +81,11 @@ EXTRA_SPECS = {
         (f'{AS}.isscalar', 'ret', 'self._pixel_aperture.isscalar', 'scalar-ness is that of the (converted, cached) pixel aperture'),
         (f'{AS}.n_apertures', 'ret', '1 ||| len(self._pixel_aperture)', 'the number of apertures is that of the (converted, cached) pixel aperture'),
     ],
-    'C03': _LOCALBKG,
-    'C11': [
+    'C03': [(f'{CAT}._make_elliptical_apertures', 'expr', 'CircularAperture((values[0], values[1]), r=self.kron_params[2])',
+             'the minimum-radius circular fallback is centred on (xcentroid, ycentroid) like the elliptical aperture')] + _LOCALBKG,
+    'C11': [('photutils.background.background_2d.Background2D._interpolate_grid', 'expr',
+             'interp_func(yx_indices, n_neighbors=n_neighbors, power=power, eps=eps, reg=reg)',
+             'the IDW options are passed by name (the interpolator takes them in another order)')] + [
         ('photutils.background.core.StdBackgroundRMS.calc_background_rms', 'stmt', 'result = nanstd(data, axis=axis)',
          'the RMS is the two-pass standard deviation (shift invariant)'),
         ('photutils.extern.biweight.biweight_midvariance', 'expr',
@@ -80,22 +94,34 @@ EXTRA_SPECS = {
          'where_func(mad.squeeze(axis=axis) == 0, M.squeeze(axis=axis), value)',
          'boxes with zero MAD take the median'),
     ],
-    'C12': [
+    'C12': [('photutils.psf.photometry.PSFPhotometry._get_fit_error_indices', 'expr', 'indices.append(index)',
+             'a non-converged fit is recorded by its source index')] + [
         ('photutils.psf.photometry.PSFPhotometry._prepare_fit_inputs', 'order', 'self._make_mask ||| self._prepare_init_params',
          'the non-finite pixels are masked before the initial parameters (finder, aperture fluxes, local background) are derived'),
     ],
-    'C14': [
+    'C14': [('photutils.utils._parameters.as_pair', 'stmt',
+             'value = np.array((min(value[0], upper_bound[0]), min(value[1], upper_bound[1])))',
+             'each element is clipped to the bound of its own axis'),
+            ('photutils.detection.core._validate_brightest', 'stmt', 'brightest = bright_int', 'brightest is returned as an int'),
+            ('photutils.detection.core._validate_brightest', 'stmt', 'bright_int = int(brightest)', 'brightest is returned as an int')] + [
         ('photutils.detection.starfinder._StarFinderCatalog.apply_filters', 'stmt',
          "attrs = ('xcentroid', 'ycentroid', 'fwhm', 'roundness', 'pa', 'max_value', 'flux')",
          'rows with any non-finite measured quantity are non-detections'),
     ],
-    'C15': [
+    'C15': [('photutils.profiles.core.ProfileBase.normalize', 'stmt', 'self.normalization_value *= normalization',
+             'the normalization keeps its unit (Quantity profiles)'),
+            (f'{AS}._unpack_nddata', 'test', 'data.uncertainty.unit is None', 'the error takes the unit of the uncertainty, not of the data'),
+            (f'{AS}._unpack_nddata', 'stmt', 'error = data.uncertainty.array * data.uncertainty.unit',
+             'the error takes the unit of the uncertainty, not of the data')] + [
         (f'{AS}._data_cutouts', 'expr', 'self._data[slices[0]].astype(float, copy=True) - local_bkg',
          'the background-subtracted cutout is a float copy whatever the input dtype'),
         ('photutils.utils.interpolation.ShepardIDWInterpolator.__call__', 'default', 'dtype=float',
          'interpolated values are floating point whatever the dtype of the known values'),
     ],
-    'C16': _SHAPE_TWINS + [
+    'C16': [(f'{AS}.__getitem__', 'expr', "keys.add('_local_bkg')", 'the per-position local background is sliced with the index, like the cached per-position values'),
+            (f'{AS}.__getitem__', 'stmt',
+             "init_attr = ('_data', '_data_unit', '_error', '_mask', '_wcs', 'sigma_clip', 'sum_method', 'subpixels', 'default_columns', 'meta')",
+             'only position-independent attributes are copied unsliced')] + _SHAPE_TWINS + [
         (f'{AS}.sum_aper_area', 'nret', '1', 'one definition of the area for every configuration (no shortcut that skips the data/non-finite mask)'),
         (f'{AS}.sum_aper_area', 'stmt', 'areas = np.array([np.sum(weight.filled(0.0)) for weight in self._weight_cutout])',
          'area = sum of the unmasked sum-method weights'),
@@ -107,7 +133,9 @@ EXTRA_SPECS = {
         ('photutils.centroids.core.centroid_quadratic', 'test', 'np.count_nonzero(~np.isnan(cutout)) < 6',
          'six unmasked points determine the quadratic: only fewer than six are rejected'),
     ],
-    'C18': [
+    'C18': [('photutils.psf.photometry.ModelImageMixin.make_model_image', 'stmt',
+             'fit_params = vstack((fit_params, psfphot._fit_model_params))',
+             'fit tables are stacked oldest first, like the list of local backgrounds')] + [
         ('photutils.datasets.images._model_shape_from_bbox', 'ret',
          '(int(np.ceil(bbox[0][1] - bbox[0][0])), int(np.ceil(bbox[1][1] - bbox[1][0])))',
          'the window is the bounding-box extent rounded up (an integral extent is kept)'),
@@ -119,11 +147,18 @@ EXTRA_SPECS = {
          'ModelImageMixin.make_residual_image(self, data, psf_shape=psf_shape, include_localbkg=include_localbkg)',
          'the residual wrapper forwards psf_shape unchanged, like make_model_image'),
     ],
-    'C19': _DO_PHOT_VAR + [
+    'C19': [('photutils.profiles.core.ProfileBase._photometry', 'guard',
+             'area = aperture.area_overlap(self.data, mask=self.mask, method=self.method, subpixels=self.subpixels) ||| aperture is None',
+             'the area is the overlap area of the same mask/method/subpixels as the sum, for every aperture')] + _DO_PHOT_VAR + [
         ('photutils.profiles.radial_profile.RadialProfile.radius', 'ret', '(self.radii[:-1] + self.radii[1:]) / 2',
          'bin centres are the means of the two edges of each bin (valid for non-uniform radii)'),
     ],
-    'C20': [
+    'C20': [('photutils.isophote.integrator._NearestNeighborIntegrator.integrate', 'stmt',
+             'j = int(radius * math.sin(phi + self._geometry.pa) + self._geometry.y0)', 'row index from the y centre'),
+            ('photutils.isophote.integrator._NearestNeighborIntegrator.integrate', 'stmt',
+             'i = int(radius * math.cos(phi + self._geometry.pa) + self._geometry.x0)', 'column index from the x centre'),
+            ('photutils.isophote.ellipse.Ellipse._iterative', 'expr', 'CentralEllipseSample(self.image, 0.0, geometry=geometry)',
+             'the central sample uses the geometry handed in (the innermost fitted isophote)')] + [
         ('photutils.isophote.integrator._BiLinearIntegrator.integrate', 'stmt',
          'sample = (self._image[j][i] * qx * qy + self._image[j + 1][i] * qx * fy + self._image[j][i + 1] * fx * qy '
          '+ self._image[j + 1][i + 1] * fy * fx)',
